@@ -11,7 +11,8 @@
             defined: the result register is the legal register of FloatToInt's value      (ConvInv)
      f2f    every floating type x every value -> every floating type: = FloatToFloat       (ConvInv)
      cmp    six operators x every pair of values incl. NaN, infinities, -0: = IEEE relation  (CmpInv)
-     truth  if(x) / !x / (_Bool)x = "compares unequal to 0"                                 (CmpInv)
+     truth  if(x) / !x / (_Bool)x = "compares unequal to 0", the operand as a register: for a float
+            x every pattern of the dead bits above it in %xmm0                                (CmpInv)
      arith  + - * / x every pair: the instruction sequence computes x op y (operand order,
             operand format), unary minus, the value of x++ / x--                             (ArithInv)
      typing get_common_type / default argument promotion = 6.3.1.8 / 6.5.2.2p6                (TypeInv)
@@ -68,21 +69,23 @@ YDom == IF ~Binary THEN {None} ELSE IF kind = "round" THEN FinVals(F32) ELSE Val
 Next == /\ ph = 0 /\ ph' = 1
         /\ UNCHANGED <<kind, a, b, op>>
         /\ x' \in XDom /\ y' \in YDom
-        /\ g' \in (IF kind = "i2f" THEN Garbage(a) ELSE {0})
+        /\ g' \in (CASE kind = "i2f" -> Garbage(a)
+                      [] kind = "truth" \/ (kind = "f2i" /\ b = "bool") -> Dead(a)      \* the dead bits of %xmm0
+                      [] OTHER -> {0})
 Spec == Init /\ [][Next]_vars
 
 (* ---- Level I = Level A -------------------------------------------------------------- *)
 LegalReg(t, r, v) == IF StoreW(t) > W32 THEN r = PatOf(W64, IntOf(v)) ELSE ZX(W32, r) = PatOf(W32, IntOf(v))
 ConvInv0 ==
   /\ kind = "i2f" => I2F(a, b, RegOf(a, x, g)) = IntToFloat(Fmt(b), x)
-  /\ kind = "f2i" => IF b = "bool" THEN ToBool(x) = IntOf(FloatToInt("bool", x))
+  /\ kind = "f2i" => IF b = "bool" THEN ToBoolR(a, x, g) = IntOf(FloatToInt("bool", x))
                      ELSE F2IDefined(b, x) => LegalReg(b, F2I(a, b, x), FloatToInt(b, x))
   /\ kind = "f2f" => F2F(a, b, x) = FloatToFloat(Fmt(b), x)
 CmpInv0 ==
   /\ kind = "cmp" => RelI(a, op, x, y) = Rel(op, x, y)
-  /\ kind = "truth" => CASE op = "if" -> TruthI(x) = Truth(x)
-                         [] op = "not" -> NotI(x) = ~Truth(x)
-                         [] op = "bool" -> ToBool(x) = (IF Truth(x) THEN 1 ELSE 0)
+  /\ kind = "truth" => CASE op = "if" -> TruthR(a, x, g) = Truth(x)          \* for every content of the dead register bits
+                         [] op = "not" -> NotR(a, x, g) = ~Truth(x)
+                         [] op = "bool" -> ToBoolR(a, x, g) = (IF Truth(x) THEN 1 ELSE 0)
 ArithInv0 ==
   kind = "arith" => CASE op = "neg" -> NegI(a, x) = Neg(x)
                       [] op = "postinc" -> PostI(a, 1, x) = x          \* 6.5.2.4p2: the value of the operand
